@@ -347,7 +347,7 @@ var chainProp = vh.Define("C17", "chain-roundtrip", func(c ChainCase, r *vh.R) {
 		return
 	}
 	// -- read back
-	got, rerr := certurl.ReadCertChain(bytes.NewReader(out))
+	got, rerr := certurl.ReadCertChain(gen.Source(out, sourceMode(out)))
 	if rerr != nil {
 		r.Failf("written-chain-not-readable", "Write accepted the chain (elems %+v) but ReadCertChain rejects its output: %v", c.Elems, rerr)
 		return
@@ -708,7 +708,7 @@ var craftProp = vh.Define("C17", "read-crafted", func(c CraftCase, r *vh.R) {
 	canonical := refcbor.CheckDeterministic(input, refcbor.Profile{}) == nil
 	mustAccept := len(reasons) == 0 && !dup && extras == 0 && c.Cut == 0 && c.Trailing == 0 && canonical
 
-	got, err := certurl.ReadCertChain(bytes.NewReader(input))
+	got, err := certurl.ReadCertChain(gen.Source(input, sourceMode(input)))
 
 	if dup {
 		r.Class("duplicate-known-key(unspecified)")
@@ -1173,4 +1173,23 @@ func TestPropSCT(t *testing.T) {
 		}
 		return c
 	})
+}
+
+
+// sourceMode picks how the bytes are handed to ReadCertChain as a pure function of the bytes:
+// about a third of the inputs go through a reader that only implements Read (files, pipes and
+// HTTP bodies look like that), in chunks of 1 / 7 / 4096 bytes, some returning data with io.EOF.
+func sourceMode(b []byte) int {
+	h := 0
+	for i, x := range b {
+		if i > 64 {
+			break
+		}
+		h = h*31 + int(x)
+	}
+	h += len(b)
+	if h < 0 {
+		h = -h
+	}
+	return []int{0, 0, 0, 0, 1, 2, 7, 512, 4096, 4097}[h%10]
 }
